@@ -184,6 +184,16 @@ theorem holders_slotSet (w : World) (si i : Nat) (sl : Slot) (s : Server) (o : N
   simp only [srvRefs] at h1
   omega
 
+/-- writing one outstanding slot, for any update function that does just that to this server -/
+theorem holders_slotSet' (w : World) (si i : Nat) (sl : Slot) (s : Server) (f : Server → Server) (o : Nat)
+    (hs : getSrv w si = some s) (hi : i < s.slots.length) (hf : (f s).slots = s.slots.set i sl) :
+    holders (updSrv w si f) o + (if s.slots[i].rq == some o then 1 else 0) =
+    holders w o + (if sl.rq == some o then 1 else 0) := by
+  have h1 := holders_updSrv w si f s o hs
+  have h2 := count_set s.slots i sl (·.rq == some o) hi
+  simp only [srvRefs, hf] at h1
+  omega
+
 /-- a server update that leaves the slots alone does not move any count -/
 theorem holders_updSrv_noslots (w : World) (si : Nat) (f : Server → Server) (hf : ∀ s, (f s).slots = s.slots) (o : Nat) :
     holders (updSrv w si f) o = holders w o := by
